@@ -7,10 +7,50 @@ namespace rtosc {
 #endif
 #define off_t signed long
 
+#ifdef RTOSC_VERIF_HOOKS
+/* Verification hooks (compiled out by default): every access to the ring
+ * indices and every copy into/out of the ring reports to an optional
+ * callback, which a test harness uses as scheduling point / delay injection
+ * point and to observe the values. code = kind*8 + variable
+ * kind: 0 before load, 1 after load, 2 before store, 3 after store,
+ *       4 before copy, 5 after copy; variable: 0 write, 1 read, 2 lookahead */
+extern "C" { void (*rtosc_verif_sched_hook)(int code, long value) = 0; }
+#define RTOSC_VERIF_POINT(code, value) \
+    do { if(rtosc_verif_sched_hook) rtosc_verif_sched_hook(code, value); } while(0)
+template<class T, int ID>
+struct verif_atomic
+{
+    std::atomic<T> a;
+    operator T() const
+    {
+        RTOSC_VERIF_POINT(0*8+ID, 0);
+        T v = a.load();
+        RTOSC_VERIF_POINT(1*8+ID, (long)v);
+        return v;
+    }
+    T operator=(T v)
+    {
+        RTOSC_VERIF_POINT(2*8+ID, (long)v);
+        a.store(v);
+        RTOSC_VERIF_POINT(3*8+ID, (long)v);
+        return v;
+    }
+};
+static inline void *verif_memcpy(void *d, const void *s, size_t n)
+{
+    RTOSC_VERIF_POINT(4*8, (long)n);
+    void *r = memcpy(d, s, n);
+    RTOSC_VERIF_POINT(5*8, (long)n);
+    return r;
+}
+#define memcpy(d,s,n) verif_memcpy(d,s,n)
+#endif
+
 
 //Ringbuffer internal structure
 struct internal_ringbuffer_t {
     char *buffer;
+#ifndef RTOSC_VERIF_HOOKS
     std::atomic<off_t> write;
     std::atomic<off_t> read;
     /* read_lookahead strictly speaking does not need to be atomic as it is
@@ -18,6 +58,11 @@ struct internal_ringbuffer_t {
      * the same type as read.
      */
     std::atomic<off_t> read_lookahead;
+#else
+    verif_atomic<off_t,0> write;
+    verif_atomic<off_t,1> read;
+    verif_atomic<off_t,2> read_lookahead;
+#endif
     size_t size;
 };
 
